@@ -74,7 +74,7 @@ func newC04Plan(tier string) *c04Plan {
 
 func (c04) Batches(tier string, seed int64) int {
 	p := newC04Plan(tier)
-	return 2 + p.nTree + p.nDeep
+	return 3 + p.nTree + p.nDeep
 }
 
 func (c04) RunBatch(ctx *core.Ctx, batch int) {
@@ -107,6 +107,28 @@ func (c04) RunBatch(ctx *core.Ctx, batch int) {
 						continue // the quoted star as a range bound is the deterministic class of batch 0
 					}
 					c04Tree(ctx, t, 0, true)
+				}
+			}
+		}
+	case batch == 2+p.nTree+p.nDeep:
+		// hostile strings as field names (quoted, and escaped when eligible) under every leaf kind:
+		// whenever the inline renderer accepts the column, the parameterised one must too
+		r := ctx.Rand("fields")
+		for _, h := range gen.ValueDict(r, 250) {
+			if strings.Contains(h, `"`) {
+				continue
+			}
+			fs := []qt.Value{qt.Phrase(h)}
+			if h != "" && !isNumericText(h) && !isKeyword(h) {
+				fs = append(fs, qt.Escaped(h))
+			}
+			for _, f := range fs {
+				for _, t := range []*qt.Node{qt.F("f", qt.Word("v")), qt.F("f", qt.Int(7)), qt.F("f", qt.Wild("w*?")), qt.Cmp("f", ">=", qt.Int(4)), qt.Cmp("f", "<", qt.Float("1.5")),
+					qt.Range("f", qt.Int(1), qt.Int(5), true), qt.Range("f", qt.Int(10), qt.Int(90), false), qt.Range("f", qt.Open(), qt.Float("2.5"), true), qt.Range("f", qt.Int(-3), qt.Open(), false),
+					qt.Range("f", qt.Word("aa"), qt.Word("bb"), true), qt.List("f", qt.Word("x"), qt.Word("y")), qt.List("f", qt.Int(1), qt.Int(2), qt.Int(3))} {
+					t.Field = f
+					c04Tree(ctx, qt.And(t, qt.Not(qt.F("g", qt.Word("z")))), 0, true)
+					ctx.Count("hostile_field_trees", 1)
 				}
 			}
 		}
@@ -389,7 +411,7 @@ func (c04) Finish(res *core.Result, cov map[string]any) []string {
 	cov["distinct_nontrivial"] = res.NDistinct("nontrivial")
 	cov["distinct_sql_texts"] = res.NDistinct("sql_texts")
 	cov["exhaustive"] = true
-	cov["rule"] = "every leaf form alone and every depth<=2 tree over the leaf alphabet (sampled 1:2 quick / 1:24 over the large alphabet thorough) plus random deeper trees, with and without a default field: ToParameterizedPostgres must succeed when ToPostgres does; placeholders outside quotes = parameters; parameters = the generator's in-order values with Go kinds (patterns translated, open ends absent); the parameterized SQL with the parameters substituted must be the same predicate as the inline SQL (structural equality of what PostgreSQL reads, else agreement on probe rows); replacing each value by others of the same kind must leave the SQL text byte-identical and change only that parameter. Non-trivial = distinct parameterized SQL skeleton with >= 1 parameter."
+	cov["rule"] = "every leaf form alone and every depth<=2 tree over the leaf alphabet (sampled 1:2 quick / 1:24 over the large alphabet thorough) plus random deeper trees, hostile and generated strings in every value position and as field names (quoted / escaped) under every leaf kind, with and without a default field: ToParameterizedPostgres must succeed when ToPostgres does; placeholders outside quotes = parameters; parameters = the generator's in-order values with Go kinds (patterns translated, open ends absent); the parameterized SQL with the parameters substituted must be the same predicate as the inline SQL (structural equality of what PostgreSQL reads, else agreement on probe rows); replacing each value by others of the same kind must leave the SQL text byte-identical and change only that parameter. Non-trivial = distinct parameterized SQL skeleton with >= 1 parameter."
 	floor(res.Counters["pairs"] >= 2000, &reasons, "pairs %d", res.Counters["pairs"])
 	for _, k := range []string{"int", "float", "string", "pattern", "regexp"} {
 		floor(res.Counters["substitutions_"+k] >= 50, &reasons, "substitutions of kind %s: %d", k, res.Counters["substitutions_"+k])
